@@ -5,7 +5,8 @@ Model of /repo/src/fpgroups/stabilizer.rs and of `induced_table`, `core_table`,
 Conventions (DESIGN §3.2): every Rust statement is re-stated; `&mut` becomes a returned
 value; `unwrap()` on `None`, indexing a map with a missing key (`point_to_word[&px]`,
 `n2o[&i]`), an index out of range and a failed `assert_eq!` become `Outcome.panic`;
-`Outcome.err` is "model fuel exhausted".
+`Outcome.err` is "model fuel exhausted" (proved never to happen on valid tables:
+`Props/C13.lean`, `stabilizer_total`, `intersection_total`, `core_total`).
 
 Repaired behaviour is modelled for two defects (the pinned tree differed):
 * D13 `close_relations_in_place` indexed `rels_by_gen[&gen]` (panic on a missing key);
@@ -172,14 +173,18 @@ def closeLoop (ct : Table) (rbg : RelMap) : Nat → Queue → EMap → Outcome E
     | .err => .err
     | .panic => .panic
 
-def totalLength (rbg : RelMap) : Nat :=
-  rbg.foldl (fun a kv => kv.2.foldl (fun b w => b + w.length + 1) a) 0
+/-- number of relator rotations filed in `rels_by_gen` (a bound for the number of relators scanned
+    per popped edge) -/
+def relCount (rbg : RelMap) : Nat := (rbg.map fun kv => kv.2.length).sum
 
-/-- model fuel for one call of `close_relations_in_place` (the Rust loop has no static
-    bound the model could state: an edge can be queued several times before it is first
-    popped; the bound below was never reached — exhaustion is reported as `MODEL-FUEL`) -/
+/-- model fuel for one call of `close_relations_in_place`.  The Rust loop has no explicit bound; it
+    terminates because an edge is only queued while it has no word and every popped edge has one
+    afterwards.  Counting queue entries with weight `(R+1)^(number of edges without a word when the
+    entry was queued)`, every pop lowers the total weight (`Proofs/StabilizerFuel.lean`), so at most
+    `(R+1)^(E+1)` edges are popped, `R = relCount`, `E` = number of (row, letter) pairs.  (The real
+    number of pops is tiny; the bound only has to be provable.) -/
 def closeFuel (ct : Table) (rbg : RelMap) : Nat :=
-  (ct.len * (2 * ct.nrGens + 1) + 1) * (totalLength rbg + 1) * 8 + 1000
+  (relCount rbg + 1) ^ (ct.len * (2 * ct.nrGens) + 1)
 
 /-- `close_relations_in_place` -/
 def closeRelations (ct : Table) (rbg : RelMap) (e2w : EMap) (start : Nat × Int) (wd : List Int) :
